@@ -39,7 +39,7 @@ var c10Alphabet = []string{"FONT", "JS1", "NOS", "PIC", "PICf", "LAZY", "LAZYs",
 
 const c10Fetch = "http://example.com/fetched/page-2.html"
 
-var c10OptNames = []string{"nil", "url", "url-pagenumber", "all-flags", "other-url", "no-url", "no-url-flags"}
+var c10OptNames = []string{"nil", "url", "url-pagenumber", "all-flags", "other-url", "no-url", "no-url-flags", "url-slash-pagenumber", "url-slash-prevnext"}
 
 func c10Opts(name string) *distiller.Options {
 	u, _ := nurl.Parse("http://caller.example/original/page-2.html?x=1#frag")
@@ -52,6 +52,12 @@ func c10Opts(name string) *distiller.Options {
 		return &distiller.Options{OriginalURL: u, PaginationAlgo: distiller.PageNumber}
 	case "all-flags":
 		return &distiller.Options{OriginalURL: u, LogFlags: distiller.LogEverything}
+	case "url-slash-pagenumber":
+		us, _ := nurl.Parse("http://example.com/fetched/dir%20x/#top")
+		return &distiller.Options{OriginalURL: us, PaginationAlgo: distiller.PageNumber}
+	case "url-slash-prevnext":
+		us, _ := nurl.Parse("http://example.com/fetched/dir%20x/?q=1#top")
+		return &distiller.Options{OriginalURL: us, LogFlags: distiller.LogPagination}
 	case "no-url":
 		return &distiller.Options{}
 	case "no-url-flags":
@@ -230,7 +236,7 @@ func init() {
 	eng.Register(&eng.Prop{
 		ID:        "C10",
 		DesignRef: "§5 C10",
-		Rule: "documents = S1 with <= 1 (quick) / <= 2 (thorough) insertions over 19 atoms in which the library rewrites nodes (font, javascript: anchor, noscript image, picture, lazy images (with and without a placeholder src that gets overwritten), embeds, video, tables, attribute-laden elements, relative links, pager, schema.org item); x options {nil, URL, URL+PageNumber, all log flags, URL with userinfo/escaped path + SkipPagination, non-nil options without URL (plain and with flags)} x every history of <= 3 calls over entry points {Apply(document), Apply(attached sub-element), ApplyForURL via an in-process RoundTripper} reusing one tree and one *Options. " +
+		Rule: "documents = S1 with <= 1 (quick) / <= 2 (thorough) insertions over 19 atoms in which the library rewrites nodes (font, javascript: anchor, noscript image, picture, lazy images (with and without a placeholder src that gets overwritten), embeds, video, tables, attribute-laden elements, relative links, pager, schema.org item); x options {nil, URL, URL+PageNumber, all log flags, URL with userinfo/escaped path + SkipPagination, non-nil options without URL (plain and with flags), URLs with trailing slash, escaped path and fragment under each pagination algorithm} x every history of <= 3 calls over entry points {Apply(document), Apply(attached sub-element), ApplyForURL via an in-process RoundTripper} reusing one tree and one *Options. " +
 			"Oracle after every call: structural snapshot of the whole tree (types, names, atoms, attributes, parent/child/sibling links) unchanged; no hooked write (field assignment or DOM mutator) touched a caller-owned node; Options and *OriginalURL unchanged (including the pointer); repeated calls give the same result; ApplyForURL reports the fetched address. Non-trivial = history of >= 2 calls or non-nil options.",
 		Enumerate: c10Enumerate,
 		Check:     c10Check,
